@@ -542,7 +542,7 @@ class Component:
     def __init__(self, name, harness, srcs, pmodel_args, gen, nontrivial, rule, corpus=None,
                  cpu=None, extra=(), ldflags=(), env=None, sanitize=True, opt=None, classify=None,
                  impl_cmd_extra=(), ignore_l2=False, monitor_args=None, fresh_process=False,
-                 bb_ok=False, bb_srcs=(), bb_fresh=False, bb_skip_ops=()):
+                 bb_ok=False, bb_srcs=(), bb_fresh=False, bb_skip_ops=(), bb_strip_ops=()):
         self.__dict__.update(locals())
 
 
@@ -586,12 +586,20 @@ def build_component(ctx, comp):
 
 def bb_filter(ctx, comp, cases):
     """Black-box mode only: cases that contain an op the harness can perform only with white-box access (`comp.bb_skip_ops`,
-    matched against the first token of each op line) are not run; their number is kept in the evidence."""
+    matched against the first token of each op line) are not run; their number is kept in the evidence.  Where the ops of
+    a case are independent calls that leave no state behind, such ops can be named in `comp.bb_strip_ops` instead: they
+    are removed from the cases and the rest of each case is run."""
     skip = set(getattr(comp, "bb_skip_ops", ()) or ())
-    if not getattr(comp, "_bb", False) or not skip:
+    strip = set(getattr(comp, "bb_strip_ops", ()) or ())
+    if not getattr(comp, "_bb", False) or not (skip or strip):
         return cases
-    kept = [c for c in cases if not any(op.split(" ", 1)[0] in skip for op in c)]
     cstat = ctx.cov["components"].setdefault(comp.name, {})
+    if strip:
+        nops = sum(len(c) for c in cases)
+        cases = [[op for op in c if op.split(" ", 1)[0] not in strip] for c in cases]
+        cstat["blackbox_ops_not_run"] = cstat.get("blackbox_ops_not_run", 0) + nops - sum(len(c) for c in cases)
+        cases = [c for c in cases if c]
+    kept = [c for c in cases if not any(op.split(" ", 1)[0] in skip for op in c)]
     cstat["blackbox_cases_not_run"] = cstat.get("blackbox_cases_not_run", 0) + len(cases) - len(kept)
     return kept
 
